@@ -158,7 +158,10 @@ def main(run, args):
                 continue
             used += len(t) // 2
             sel.append(((t, h), meta))
-        jobs = [("T", c) for c in tree_cases] + [("H", c) for c in sel]
+        # parent-hash chains verified from scratch (RFC 9420 7.9.2) on a sample of the exported trees
+        # (every non-blank parent; costs a sibling subtree hash per parent, hence small trees)
+        psel = [c for c in rng.shuffle(sel) if len(c[0][0]) <= 9000][: (14 if quick else 150)]
+        jobs = [("T", c) for c in tree_cases] + [("H", c) for c in sel] + [("P", c) for c in psel]
         nsh = 16
         shards = [jobs[i::nsh] for i in range(nsh) if jobs[i::nsh]]
 
@@ -167,6 +170,9 @@ def main(run, args):
             for kind, c in js:
                 if kind == "T":
                     exprs.append(c[0])
+                elif kind == "P":
+                    (t, h), _ = c
+                    exprs.append(f'parent_hash_case 0 "{t}"%string')
                 else:
                     (t, h), _ = c
                     exprs.append(f'tree_hash_case 0 "{t}"%string "{h}"%string')
@@ -184,10 +190,14 @@ def main(run, args):
                 if v != 0:
                     if kind == "T":
                         mism.append(dict(c[1], what="model tree differs from the exported tree" if v == 1 else "model refuses / panics on a commit the library applied", code=v))
+                    elif kind == "P":
+                        (t, h), meta = c
+                        failing.append(dict(meta, what="a non-blank parent of an exported tree is not parent-hash valid (RFC 9420 7.9.2, verified from scratch)" if v == 1 else "exported tree could not be decoded by the codec model", tree=t))
                     else:
                         (t, h), meta = c
                         failing.append(dict(meta, what="tree hash in the group context differs from the hash recomputed from the exported tree (RFC 9420 7.8)" if v == 1 else "exported tree could not be decoded by the codec model", tree=t, context_tree_hash=h))
         run.cov["hashes_recomputed_in_coq"] = len(sel)
+        run.cov["parent_hash_chains_verified_in_coq"] = len(psel)
     run.obligation("correspondence: model trees = exported trees; recomputed tree hashes = context tree hashes", not mism and not failing and coq_cases > 0)
     if shapes["interior_blank"] < 3 or shapes["unmerged"] < 3:
         broken.append(("generator", f"degenerate tree shapes: {shapes}"))
